@@ -78,6 +78,8 @@ pub struct GenParams {
     pub exotic: bool,
     /// a compound position below the root becomes an atom with probability 1/stop_den
     pub stop_den: u32,
+    /// draw some names from a pool of CJK words (some begin with the first character of a Han copula)
+    pub cjk_names: bool,
 }
 
 const NAMES: [&str; 14] = ["A", "B", "C", "D", "robin", "bird", "x1", "Z9", "E", "F", "G", "H", "tweety", "k2"];
@@ -96,7 +98,12 @@ fn gen_atom(ch: &mut Choices, p: &GenParams) -> Desc {
     }
 }
 
+const CJK_NAMES: [&str; 8] = ["将军", "现场", "曾经", "具体", "雨", "人", "湿地", "我"];
+
 fn gen_name(ch: &mut Choices, p: &GenParams) -> String {
+    if p.cjk_names && ch.chance(1, 3) {
+        return CJK_NAMES[ch.choose(CJK_NAMES.len() as u32) as usize].to_string();
+    }
     if p.exotic && ch.chance(1, 12) {
         return EXOTIC_NAMES[ch.choose(EXOTIC_NAMES.len() as u32) as usize].to_string();
     }
@@ -228,6 +235,58 @@ fn fresh_atom() -> Desc {
 /// One semantic mutation at one node. Returns a label of what was done, or None if the mutation
 /// drawn does not apply at that node (caller retries). The caller verifies `canon` changed.
 fn mutate_node(d: &mut Desc, ch: &mut Choices) -> Option<&'static str> {
+    // shape-level near misses that apply to any node: the kind of difference a "generous"
+    // equality might be tempted to ignore
+    if ch.chance(1, 6) {
+        let inner = std::mem::replace(d, Desc::Placeholder);
+        return Some(match ch.choose(5) {
+            0 => {
+                *d = Desc::Neg(Box::new(Desc::Neg(Box::new(inner))));
+                "wrap-in-double-negation"
+            }
+            1 => {
+                *d = Desc::Set(ch.choose(N_SET as u32) as u8, vec![inner]);
+                "wrap-in-singleton-unordered"
+            }
+            2 => {
+                *d = Desc::Seq(ch.choose(N_SEQ as u32) as u8, vec![inner]);
+                "wrap-in-singleton-ordered"
+            }
+            3 => match inner {
+                // unwrap a singleton container
+                Desc::Set(_, mut v) | Desc::Seq(_, mut v) if v.len() == 1 => {
+                    *d = v.pop().unwrap();
+                    "unwrap-singleton"
+                }
+                other => {
+                    *d = Desc::Neg(Box::new(other));
+                    "wrap-in-negation"
+                }
+            },
+            _ => match inner {
+                Desc::Atom(k, n) => {
+                    // a spelling variant of the same name
+                    let variant = match ch.choose(4) {
+                        0 => n.to_uppercase(),
+                        1 => n.to_lowercase(),
+                        2 => format!("{n} "),
+                        _ => format!("0{n}"),
+                    };
+                    let changed = variant != n;
+                    *d = Desc::Atom(k, if changed { variant } else { format!("{n}_") });
+                    "spelling-variant-of-name"
+                }
+                Desc::Interval(i) => {
+                    *d = Desc::Atom(A_WORD, i.to_string());
+                    "interval-to-word-with-that-number"
+                }
+                other => {
+                    *d = Desc::Neg(Box::new(other));
+                    "wrap-in-negation"
+                }
+            },
+        });
+    }
     match d {
         Desc::Atom(k, n) => match ch.choose(3) {
             0 => {
@@ -287,13 +346,26 @@ fn mutate_node(d: &mut Desc, ch: &mut Choices) -> Option<&'static str> {
                 v.swap(i, i + 1);
                 Some("permute-ordered")
             }
-            2 if !v.is_empty() => {
-                // duplicates matter in ordered compounds
-                let i = ch.choose(v.len() as u32) as usize;
-                let c = v[i].clone();
-                v.insert(i, c);
-                Some("duplicate-in-ordered")
-            }
+            2 if !v.is_empty() => match ch.choose(3) {
+                0 => {
+                    // duplicates matter in ordered compounds
+                    let i = ch.choose(v.len() as u32) as usize;
+                    let c = v[i].clone();
+                    v.insert(i, c);
+                    Some("duplicate-in-ordered")
+                }
+                1 => {
+                    // an element that "takes no time" / "means nothing" is still an element
+                    let i = ch.choose(v.len() as u32 + 1) as usize;
+                    v.insert(i, if ch.chance(1, 2) { Desc::Interval(0) } else { Desc::Placeholder });
+                    Some("insert-zero-interval-or-placeholder-in-ordered")
+                }
+                _ => {
+                    let i = ch.choose(v.len() as u32) as usize;
+                    v.remove(i);
+                    Some("remove-from-ordered")
+                }
+            },
             _ => {
                 v.push(fresh_atom());
                 Some("append-to-ordered")
